@@ -443,7 +443,7 @@ func (g *G) heredoc() {
 	delim := g.S.Pick(hdDelims)
 	quoted := false
 	var written string
-	switch g.S.Intn(7) {
+	switch g.S.Intn(8) {
 	case 0, 1, 2:
 		written = delim
 	case 3:
@@ -458,6 +458,10 @@ func (g *G) heredoc() {
 		} else {
 			written, quoted = "'"+delim+"'", true
 		}
+	case 7:
+		// an expansion in the delimiter word is taken literally: the delimiter is the text "E$x"
+		delim += g.S.Pick([]string{"$x", "${y}", "$1"})
+		written = delim
 	}
 	g.b.WriteString(op)
 	g.optBlank()
@@ -482,7 +486,7 @@ func (g *G) hdBody(op, delim string, quoted bool) string {
 			pool = 26
 		}
 		if g.S.Chance(1, 12) {
-			pool = 28 // includes the rare lines 26, 27 (and, for C18/C01 only, 24/25 when allowed)
+			pool = 29 // includes the rare lines 26, 27, 28 (and, for C18/C01 only, 24/25 when allowed)
 		}
 		if g.O.HeredocBodyPool == 1 {
 			pool = 4
@@ -544,6 +548,8 @@ func (g *G) hdBody(op, delim string, quoted bool) string {
 			} else {
 				line = "$x " + delim
 			}
+		case 28:
+			line = "esc \\é \\日 \\x end" // a backslash before multi-byte characters stays as it is
 		case 26:
 			line = delim + "\r" // carriage return behind the delimiter text: not the delimiter
 		case 27:
